@@ -520,6 +520,10 @@ def run(prog, rep, tier='quick', config='default'):
     sv = anchors.sfl_validation(prog)
     if sv is not None:
         alias[sv.name] = '@sfl_validation'     # private function located by shape: keys survive a rename
+    DAY = 'portfolio::bookkeeping::costs::MaxSingleDayCosts'
+    for cand in prog.product_fns():
+        if cand.kind == 'AssocFn' and any(mir.place_fields(st['dst'])[-1:] == [(DAY, 'total')] for b in cand.blocks.values() for st in b['stmts']):
+            alias[cand.name] = '@cost_observer'    # the method that keeps MaxSingleDayCosts.total up to date
     sites = []
     for fn in prog.product_fns():
         for c in fn.calls:
